@@ -249,6 +249,17 @@ for stochastic in (False, True):
                            rules=[('assignment', {'equation': 'C = kf * A + B'}, freq), ('assignment', {'equation': 'Kd = A * 2'}, freq)])
         roundtrip_contract('rules:additive:' + freq, SPECIES, [(['A'], ['B'], 'massaction', {'k': 'kf'})], ['kf'], stochastic,
                            rules=[('additive', {'equation': 'D = A + B + C'}, freq)])
+    roundtrip_contract('rules:assignment:unary-minus-on-a-power', SPECIES, [(['A'], ['B'], 'massaction', {'k': 'kf'})], ['kf'], stochastic,
+                       rules=[('assignment', {'equation': 'C = -A^2 + 20*kf'}, 'repeated'), ('assignment', {'equation': 'D = kf*exp(-B^2/4) + A'}, 'repeated')])
+    # several reactions: what is written for one reaction must not leak into the next (delayed / plain in both orders, different families)
+    roundtrip_contract('multi:delayed-then-plain', SPECIES, [(['A', 'B'], ['C'], 'massaction', {'k': 'kf'}, 'gaussian', ['C'], ['D'], {'mean': '$mu', 'std': '$sd'}),
+                                                              (['C'], ['A'], 'massaction', {'k': '$k2'}),
+                                                              ([], ['P'], 'hillpositive', dict(HILLPD))], ['kf', 'Kd', 'nh'], stochastic)
+    roundtrip_contract('multi:interleaved', SPECIES, [(['A'], ['B'], 'massaction', {'k': 'kf'}),
+                                                       (['B'], [], 'massaction', {'k': 'kf'}, 'fixed', [], ['P', 'P'], {'delay': '$tau'}),
+                                                       (['P'], ['D'], 'general', {'rate': 'kf*P/(Kd+P)'}),
+                                                       (['D'], ['A'], 'massaction', {'k': '$k3'}, 'gamma', ['A'], ['C'], {'k': '$gk', 'theta': '$gth'}),
+                                                       ([], ['A'], 'massaction', {'k': '$k4'})], ['kf', 'Kd'], stochastic)
     twice_contract('mixed', SPECIES, [(['A', 'B'], ['C'], 'massaction', {'k': 'kf'}, 'gaussian', ['C'], ['D'], {'mean': '$mu', 'std': '$sd'}),
                                       (['C'], ['P'], 'hillpositive', dict(HILLPD, k='$k')),
                                       ([], ['A'], 'general', {'rate': 'kf*B/(Kd+B)'})], ['kf', 'Kd', 'nh'], stochastic,
